@@ -57,13 +57,14 @@ void InvariantMixedDiscreteDistribution::updateDistribution()
       distribution_[cats[i]] = (1. - p_) * probs[i];
   }
 
-  intMinMax_->setLowerBound(dist_->getLowerBound(), !dist_->strictLowerBound());
-  intMinMax_->setUpperBound(dist_->getUpperBound(), !dist_->strictUpperBound());
+  intMinMax_->setLowerBound(dist_->getLowerBound(), dist_->strictLowerBound());
+  intMinMax_->setUpperBound(dist_->getUpperBound(), dist_->strictUpperBound());
 
+  // the invariant is a class value: when it is an end of the domain, that end is included
   if (invariant_ <= intMinMax_->getLowerBound())
-    intMinMax_->setLowerBound(invariant_, true);
+    intMinMax_->setLowerBound(invariant_, false);
   if (invariant_ >= intMinMax_->getUpperBound())
-    intMinMax_->setUpperBound(invariant_, true);
+    intMinMax_->setUpperBound(invariant_, false);
 
   numberOfCategories_ = distribution_.size();
 
